@@ -1,6 +1,7 @@
 package main
 
 import (
+	"github.com/foxboron/go-uefi/efi"
 	"os"
 	"golang.org/x/sys/unix"
 	"syscall"
@@ -257,6 +258,53 @@ func c15Op(c *WCase, res *WResult) {
 		if out.Kinds == nil {
 			out.Kinds = []string{fmt.Sprintf("ReadAt×%d", out.N)}
 		}
+	case strings.HasPrefix(op, "typed."):
+		// the typed database accessors (object API and the legacy package-level twins) over a store
+		// whose filesystem fails: an error, or the database that is stored. The legacy accessors
+		// define a variable that does not exist (the OPEN says so) as an empty database.
+		mem := afero.NewMemMapFs()
+		want := c12db(3, 21).Bytes()
+		mem.MkdirAll(efivarsDir, 0o755)
+		afero.WriteFile(mem, varPath("db", efivar.Db.GUID.Format()), withAttrs(uint32(efivar.Db.Attributes), want), 0o644)
+		ffs := fault.NewFs(mem)
+		ffs.Plan = fault.Plan{K: k, Persistent: persistent, Mode: mode}
+		en, _ := strconv.Atoi(c.P["errno"])
+		if en != 0 {
+			ffs.Plan.Err = syscall.Errno(en)
+		}
+		e := efivarfs.NewFS()
+		e.SetFS(ffs)
+		efifs.SetFS(ffs)
+		var db *signature.SignatureDatabase
+		var err error
+		if op == "typed.read.object" {
+			db, err = e.Open().Getdb()
+		} else {
+			db, err = efi.Getdb()
+		}
+		out.N, out.Hit, out.HitOp = ffs.Calls(), ffs.Hit, ffs.HitOp
+		out.Kinds = fsKinds(ffs.Events())
+		out.Err = errS(err)
+		var got []byte
+		if db != nil {
+			got = db.Bytes()
+		}
+		switch {
+		case !ffs.Hit && (err != nil || !bytes.Equal(got, want)):
+			bad("harness", "fault-free %s failed: %v", op, err)
+		case !ffs.Hit || err != nil:
+		case bytes.Equal(got, want):
+			// the stored database: fine when the failing step was advisory or retried
+			if !(mode == "short-read" || ffs.HitOp == "Close" || retriedSame(ffs.Events())) {
+				bad("success-reported", "%s reported success although %s failed (%s)", op, ffs.HitOp, mode)
+			}
+		case len(got) == 0 && op == "typed.read.legacy" && syscall.Errno(en) == syscall.ENOENT && (ffs.HitOp == "Open" || ffs.HitOp == "OpenFile"):
+			// "no such variable" at the open step: the legacy reading of an absent variable
+		case len(got) == 0 && op == "typed.read.legacy" && mode == "eof" && ffs.HitOp == "Read":
+			// the file ends before its first byte: an empty file, which the legacy accessors read as an empty database
+		default:
+			bad("wrong-value", "%s returned a database of %d bytes (stored: %d) with nil error after %s failed (%s, errno %d)", op, len(got), len(want), ffs.HitOp, mode, en)
+		}
 	case strings.HasPrefix(op, "file."):
 		// the wrapper's plain file helpers (used for key/certificate/ESL files next to the variables)
 		mem := afero.NewMemMapFs()
@@ -459,7 +507,7 @@ func checkC15(r *mon.Run) {
 	r.Exhaustive()
 	useFakeEfivarsDir()
 	var ops []string
-	ops = append(ops, "sign.pkcs7", "sign.authenticode", "sign.authenticode.reader", "var.sign", "write.object", "write.legacy", "write.object.append", "write.legacy.append", "write.object.empty", "write.legacy.empty", "write.object.big", "write.legacy.big", "write.object.immutable", "write.signedupdate.fs", "write.signedupdate.signer", "read.object", "read.legacy", "read.object.big", "read.legacy.big", "file.write", "file.read")
+	ops = append(ops, "sign.pkcs7", "sign.authenticode", "sign.authenticode.reader", "var.sign", "write.object", "write.legacy", "write.object.append", "write.legacy.append", "write.object.empty", "write.legacy.empty", "write.object.big", "write.legacy.big", "write.object.immutable", "write.signedupdate.fs", "write.signedupdate.signer", "read.object", "read.legacy", "read.object.big", "read.legacy.big", "file.write", "file.read", "typed.read.object", "typed.read.legacy")
 	imgs := c15Images
 	if !r.Thorough() {
 		imgs = []string{"test.pecoff", "signed", "HelloWorld"}
@@ -505,6 +553,8 @@ func checkC15(r *mon.Run) {
 			modes = []string{"error", "short", "short-error"}
 		case op == "file.write":
 			modes = []string{"error", "short", "short-error"}
+		case strings.HasPrefix(op, "typed."):
+			modes = []string{"error", "short-error", "short-read", "eof", "half-eof"}
 		case op == "file.read":
 			// no early-EOF modes: like os.ReadFile the helper reads to the end, wherever that is
 			modes = []string{"error", "short-error", "short-read"}
@@ -519,8 +569,12 @@ func checkC15(r *mon.Run) {
 				}
 				// filesystem operations: the same position failing with each errno (a retry loop,
 				// an errno-specific branch or an error mapping must still end in an error)
-				if (strings.HasPrefix(op, "write.") || strings.HasPrefix(op, "read.") || strings.HasPrefix(op, "file.")) && !strings.Contains(op, "signer") && (m == "error" || m == "short-error") {
-					for _, en := range c15Errnos {
+				if (strings.HasPrefix(op, "write.") || strings.HasPrefix(op, "read.") || strings.HasPrefix(op, "file.") || strings.HasPrefix(op, "typed.")) && !strings.Contains(op, "signer") && (m == "error" || m == "short-error") {
+					ens := c15Errnos
+					if strings.HasPrefix(op, "read.") || strings.HasPrefix(op, "typed.") {
+						ens = append(append([]syscall.Errno(nil), c15Errnos...), syscall.ENOENT) // "no such file" from a step that is not the open
+					}
+					for _, en := range ens {
 						plans = append(plans, c15Plan{op, m, k, true, int(en)})
 						if m == "error" {
 							plans = append(plans, c15Plan{op, m, k, false, int(en)})
